@@ -69,7 +69,7 @@ def _window(c, n, size):
 
 
 def _expected(kind, unitful, rows, mshape, per_row_shape, use_bkg,
-              discretize):
+              discretize, factor=3):
     """Independent superposition; returns (array, unit or None)."""
     from astropy.convolution import discretize_model
     model, xn, yn, fn = _model(kind, unitful)
@@ -98,7 +98,7 @@ def _expected(kind, unitful, rows, mshape, per_row_shape, use_bkg,
         else:
             sub = discretize_model(m, x_range=(x0, x1), y_range=(y0, y1),
                                    mode='linear_interp' if discretize ==
-                                   'interp' else discretize, factor=3)
+                                   'interp' else discretize, factor=factor)
         if hasattr(sub, 'unit'):
             unit = sub.unit
             sub = sub.value
@@ -140,7 +140,7 @@ def _snap_table(t):
 
 
 def _check(kind, unitful, rows, mshape, per_row_shape, use_bkg, rename,
-           discretize, twin=False):
+           discretize, twin=False, factor=3):
     from photutils.datasets import make_model_image
     model, t, pmap, xn, yn = _table(kind, unitful, rows, per_row_shape,
                                     use_bkg, rename)
@@ -155,11 +155,11 @@ def _check(kind, unitful, rows, mshape, per_row_shape, use_bkg, rename,
             img = make_model_image(SHAPE, model, t, params_map=pmap,
                                    x_name=xn, y_name=yn,
                                    discretize_method=discretize,
-                                   discretize_oversample=3, **kw)
+                                   discretize_oversample=factor, **kw)
         except Exception as e:  # noqa
             return f'raised {e!r}'
     exp, unit = _expected(kind, unitful, rows, mshape, per_row_shape,
-                          use_bkg and not twin, discretize)
+                          use_bkg and not twin, discretize, factor)
     got_unit = getattr(img, 'unit', None)
     if unitful and unit is not None and got_unit != unit:
         return f'unit of the image is {got_unit}, expected {unit}'
@@ -210,13 +210,15 @@ def _run_table(case):
             mshape = dict([('3', 3), ('4', 4), ('5', 5),
                            ('35', (3, 5))])[mode]
         disc = case.get('disc', 'center')
+        # (the oversampling factor only matters for 'oversample')
+        factor = ctx.choice('factor', [3, 1, 2]) if disc != 'center' else 3
         ctx.stats.obligations += 1
         cnt['n'] += 1
         msg = _check(kind, unitful, rows, mshape, per_row, use_bkg, rename,
-                     disc, twin=bool(case.get('twin')))
+                     disc, twin=bool(case.get('twin')), factor=factor)
         params = dict(kind='table', model=kind, unitful=unitful, rows=rows,
                       mshape=mshape, per_row=per_row, use_bkg=use_bkg,
-                      rename=rename, disc=disc)
+                      rename=rename, disc=disc, factor=factor)
         if msg is None:
             ctx.stats.unsat += 1
         else:
@@ -376,5 +378,6 @@ def replay(f):
     if isinstance(ms, list):
         ms = tuple(ms)
     msg = _check(p['model'], p['unitful'], p['rows'], ms, per_row,
-                 p['use_bkg'], p['rename'], p['disc'])
+                 p['use_bkg'], p['rename'], p['disc'],
+                 factor=p.get('factor', 3))
     return msg is not None, str(msg)
